@@ -82,11 +82,14 @@ impl Family for ThreadFam {
     const NAME: &'static str = "thread";
 
     fn make_objs(_cfg: &bool, _n: usize) {}
-    fn new_locals(_cfg: &bool, t: usize) -> usize {
-        t
+    /// thread index, plus bit 16 = "this thread was given a name"
+    fn new_locals(cfg: &bool, t: usize) -> usize {
+        t | if Self::thread_name(cfg, t).is_some() { 1 << 16 } else { 0 }
     }
+    /// "named" programs name the odd threads only: an unnamed thread spawned by a named one (and the
+    /// reverse) must still report its own name — none
     fn thread_name(cfg: &bool, t: usize) -> Option<String> {
-        if *cfg {
+        if *cfg && t % 2 == 1 {
             Some(format!("vx-thread-{}", t))
         } else {
             None
@@ -122,7 +125,13 @@ impl Family for ThreadFam {
             }
             TOp::CurrentName => {
                 let cur = shuttle::thread::current();
-                let want = if t == 0 { Some("main-thread".to_string()) } else { Some(format!("vx-thread-{}", *l)) };
+                let want = if t == 0 {
+                    Some("main-thread".to_string())
+                } else if *l & (1 << 16) != 0 {
+                    Some(format!("vx-thread-{}", *l & 0xffff))
+                } else {
+                    None
+                };
                 TRes::Bool(cur.name().map(|s| s.to_string()) == want)
             }
             TOp::Yield => {
@@ -339,6 +348,38 @@ pub fn program_set(set: &str) -> Vec<Program<ThreadFam>> {
                 threads: vec![vec![GOp::Spawn(1), GOp::Spawn(2), GOp::Join(2), GOp::Join(1)], g(b1), g(b2)],
             });
         }
+    }
+    // (2b) names across spawning: a named thread (1) spawns an unnamed one (2), which spawns a named
+    // one (3); everybody asks for its own name and id; also unnamed scoped threads of a named owner
+    {
+        let q = |extra: &[TOp]| -> Vec<GOp<TOp>> {
+            let mut v = g(extra);
+            v.extend(g(&[TOp::CurrentName, TOp::CurrentId]));
+            v
+        };
+        let mut t1 = vec![GOp::Spawn(2)];
+        t1.extend(q(&[]));
+        t1.push(GOp::Join(2));
+        let mut t2 = vec![GOp::Spawn(3)];
+        t2.extend(q(&[]));
+        t2.push(GOp::Join(3));
+        out.push(Program {
+            cfg: true,
+            threads: vec![vec![GOp::Spawn(1), GOp::Op(TOp::CurrentName), GOp::Join(1)], t1, t2, q(&[TOp::TlsGet(0)])],
+        });
+        // a named thread owning a scope with an unnamed (2) scoped thread
+        let mut owner = vec![GOp::ScopeBegin(vec![2])];
+        owner.extend(q(&[]));
+        owner.push(GOp::ScopeEnd);
+        out.push(Program {
+            cfg: true,
+            threads: vec![vec![GOp::Spawn(1), GOp::Join(1)], owner, q(&[])],
+        });
+        // unnamed children of main
+        out.push(Program {
+            cfg: true,
+            threads: vec![vec![GOp::Spawn(2), GOp::Spawn(1), GOp::Join(1), GOp::Join(2)], q(&[]), q(&[])],
+        });
     }
     // (3) scope
     for b1 in &body {
